@@ -186,6 +186,53 @@ PROPS.update({
     ),
 })
 
+PROPS.update({
+    "C04": dict(
+        level_text="Exploration by differential runtime monitoring across builds: two frozen writer builds (the pinned sources; pinned + recorded fixes) are linked into the same process as the current tree; whatever they accept and write is handed to the current build's reconstruction, whose output must equal the original bytes as long as the version constants agree (read through a hook).",
+        design_ref="DESIGN.md §5 C04",
+        level_note="The history of deployed builds is represented by two frozen writers; older releases are not available offline. If the current tree bumps FILE_VERSION or the wrapper version the premise is false and the check reports that and exercises nothing.",
+        technique="runtime monitoring: differential cross-build oracle (frozen reference writers -> current reader)",
+        level="exploration",
+        rule="streams (generator, four compressors, shapes, mutants) analysed by each frozen writer with verify=true; files (assembler, "
+             "edge cases, mutants) expanded by each frozen writer and confirmed readable by that writer itself; then reconstructed by "
+             "the current build. evaluations = (writer, input) pairs cross-decoded (+1 for the version comparison). non-trivial = "
+             "pair whose original bytes were reproduced and that involved a real stream (files: at least one signature position), "
+             "distinct by (content hash, writer)",
+        assumptions=COMMON_ASSUME + ["the frozen copies under /verif/reference are byte-for-byte the sources of commits 23397ec (pinned + hooks) and the commit named in reference/fixed/FROZEN_AT, with only the package name changed and #[no_mangle] removed"],
+        min_evaluations=200,
+    ),
+    "C09": dict(
+        level_text="Exploration with a paired differential statistic: the same seeded sample of zlib / zlib-ng / libdeflate / miniz_oxide streams over their parameter grids is analysed by the frozen reference build and by the current build in the same process; acceptance counts and correction sizes are compared per family with the statement's one-sided thresholds (1 % acceptance, 3 % size).",
+        design_ref="DESIGN.md §5 C09",
+        level_note="Because both builds see identical inputs there is no sampling noise in the comparison; on an unchanged tree both ratios are exactly 1. A regression confined to a parameter cell that the sample weights lightly can stay below the aggregate thresholds (per-cell figures are in the evidence).",
+        technique="runtime monitoring: paired differential statistic against a frozen reference build",
+        level="exploration",
+        rule="per family (zlib levels -1..9 x 5 strategies x windowBits 9-15 x memLevel 1-9 with optional flush points; zlib-ng 1-9; "
+             "libdeflate 0-12; miniz_oxide 0-10) streams from structured random plaintexts of 2-128 KiB. evaluations = streams "
+             "analysed by both builds. non-trivial = accepted by both builds, distinct by content hash",
+        assumptions=COMMON_ASSUME + ["reference build = /verif/reference/fixed (pinned + recorded fix commits)"],
+        min_evaluations=400,
+    ),
+})
+
+
+def c09_statistic(counters):
+    """the statement's thresholds, one-sided, per family; returns (per_family, list of (sub, family, text))"""
+    per, bad = {}, []
+    for f in ["zlib", "zlibng", "libdeflate", "miniz"]:
+        g = lambda k: counters.get("%s:%s" % (f, k), 0)
+        ar, ac, cr, cc = g("accepted_ref"), g("accepted_cur"), g("corr_bytes_ref"), g("corr_bytes_cur")
+        per[f] = dict(streams=g("streams"), accepted_ref=ar, accepted_cur=ac, accepted_both=g("accepted_both"),
+                      corr_bytes_ref=cr, corr_bytes_cur=cc,
+                      acceptance_ratio=(ac / ar) if ar else None, corrections_ratio=(cc / cr) if cr else None)
+        if ar > 0 and ac < 0.99 * ar:
+            bad.append(("acceptance_regressed", f,
+                        "%s: current build accepts %d of the streams, reference %d (ratio %.4f < 0.99)" % (f, ac, ar, ac / ar)))
+        if cr > 0 and cc > 1.03 * cr:
+            bad.append(("corrections_regressed", f,
+                        "%s: corrections over streams both accept total %d bytes, reference %d (ratio %.4f > 1.03)" % (f, cc, cr, cc / cr)))
+    return per, bad
+
 
 def post_process(pid, counters, extras, run, replays):
     out = {}
@@ -197,6 +244,36 @@ def post_process(pid, counters, extras, run, replays):
         if counters.get("hook_crosscheck_failed", 0) > 0:
             out["harness_error"] = ("hook cross-check failed %d time(s): roundtrip_with_params with the estimator's own "
                                     "vector disagrees with the public analysis" % counters["hook_crosscheck_failed"])
+    if pid == "C04":
+        if counters.get("premise_false_version_bumped", 0) > 0:
+            out["coverage"] = {"explanation": "premise false: the current tree declares different format version numbers "
+                               "than the reference builds, cross-decoding is not required and nothing was exercised"}
+            out["skip_floor"] = True
+    if pid == "C09":
+        import json, os
+        per, bad = c09_statistic(counters)
+        # self-test of the statistic: a synthetic 2 % acceptance loss and a 4 % size growth must be flagged
+        syn = {"zlib:accepted_ref": 100, "zlib:accepted_cur": 98, "zlib:corr_bytes_ref": 1000, "zlib:corr_bytes_cur": 1041}
+        _, synbad = c09_statistic(syn)
+        cells = {}
+        for k, v in counters.items():
+            if k.startswith("cell:"):
+                name, what = k[5:].rsplit(":", 1)
+                cells.setdefault(name, {})[what] = v
+        worst = sorted(((c.get("corr_cur", 0) / c["corr_ref"], n, c) for n, c in cells.items() if c.get("corr_ref", 0) > 0), reverse=True)[:8]
+        out["coverage"] = {"per_family": per, "statistic_selftest_flags": len(synbad),
+                           "worst_cells": [{"cell": n, "ratio": round(r, 4), **c} for r, n, c in worst],
+                           "cells_with_lost_streams": {n: c["lost"] for n, c in cells.items() if c.get("lost")}}
+        if len(synbad) != 2:
+            out["harness_error"] = "self-test of the C09 statistic failed"
+        os.makedirs(os.path.join(replays, "C09"), exist_ok=True)
+        for sub, fam, text in bad:
+            rp = os.path.join(replays, "C09", "%s-%s.json" % (sub, fam))
+            with open(rp, "w") as f:
+                json.dump({"property": "C09", "sub": sub, "family": fam, "what": text, "per_family": per,
+                           "tier": run.tier, "seed": run.seed,
+                           "note": "aggregate verdict: re-run ./check C09 with the same VERIF_SEED and tier to reproduce"}, f, indent=1)
+            run.violations.append({"sub": sub, "signature": "%s|%s" % (sub, fam), "what": text, "replay": rp})
     if pid == "C05":
         out["distinct_add"] = 0
     return out
